@@ -160,3 +160,78 @@ class ConditionParseCache(Contract):
         q1 = TextQueryTestBackend().convert_rule(mk("first"))
         q2 = TextQueryTestBackend().convert_rule(mk("second"))
         return None if "second" in q2[0] and "first" not in q2[0] else f"a second rule with the same condition text converts to {q2} (first rule gave {q1}): the cached parse tree leaked"
+
+
+@register
+class FinishQueryFrame(Contract):
+    """TextQueryBackend.finish_query gives the query template a VIEW of the conversion state (pipeline state over backend defaults) and
+    changes neither: the backend's state_defaults (one dict per class, shared by every rule and every instance) and the rule's
+    processing_state hold exactly what they held before the call"""
+    id = "C15.TextQueryBackend.finish_query"
+    target = "sigma.conversion.base:TextQueryBackend.finish_query"
+    props = ("C15", "C08")
+    cases = tuple((nd, ns, dfr) for nd in (0, 1, 2) for ns in (0, 1) for dfr in (False, True))
+    assumed = ["str.format of the query template is abstract (receives the arguments, returns a string)", "collections.ChainMap modelled as an object holding its maps (first hit wins)",
+               "sizes of state_defaults (0..2) and of the pipeline state (0..1) unrolled; the pipeline key is also a defaults key when both are non-empty"]
+
+    def setup(self, E):
+        E.externals["collections.ChainMap"] = lambda I, a, k: SObj("ChainMap", {"maps": list(a)})
+        E.summaries["sigma.conversion.base:Backend.finish_query"] = lambda I, so, a, k: a[1]
+
+    def args(self, I, case):
+        nd, ns, dfr = case
+        cap = {}
+
+        def fmt(I2, a, k):
+            cap.update(k)
+            cap["state_items"] = None
+            st = k.get("state")
+            if isinstance(st, dict):
+                cap["state_items"] = dict(st)
+            cap["r"] = I2.fresh("rendered", "str")
+            return cap["r"]
+        defaults = {f"k{i}": I.fresh(f"default{i}", "str") for i in range(nd)}
+        pstate = {"k0": I.fresh("set_by_pipeline", "str")} if ns else {}
+        deferred = [SObj("Deferred", {"finalize_expression": NativeFn("finalize_expression", lambda I2, a, k: I2.fresh("deferred_text", "str"))})] if dfr else []
+        state = SObj(I.E.index.lookup("sigma.conversion.state:ConversionState"), {"deferred": deferred, "processing_state": pstate})
+        me = SObj(I.E.index.lookup("sigma.conversion.base:TextQueryBackend"),
+                  {"state_defaults": defaults, "query_expression": SObj("Template", {"format": NativeFn("format", fmt)}), "deferred_start": I.fresh("dstart", "str"), "deferred_separator": I.fresh("dsep", "str"),
+                   "deferred_only_query": I.fresh("donly", "str")}, lazy=True)
+        return {"self": me, "args": [SObj("Rule", {}), I.fresh("query", "str"), state], "cap": cap, "defaults": defaults, "pstate": pstate, "snap_d": dict(defaults), "snap_p": dict(pstate)}
+
+    def post(self, I, inp, r):
+        c, cap = I.ctx, inp["cap"]
+        d, p = inp["defaults"], inp["pstate"]
+        c.require(set(d) == set(inp["snap_d"]) and all(d[k] is v for k, v in inp["snap_d"].items()), "state_defaults of the backend class is unchanged (no key added, no value replaced)", kind="FRAME")
+        c.require(set(p) == set(inp["snap_p"]) and all(p[k] is v for k, v in inp["snap_p"].items()), "processing_state of the rule is unchanged", kind="FRAME")
+        st = cap.get("state")
+        want = {**inp["snap_d"], **inp["snap_p"]}
+        if isinstance(st, SObj) and st.cls == "ChainMap":
+            maps = st.fields["maps"]
+            c.require(len(maps) == 2 and maps[0] is p and maps[1] is d, "the template sees the pipeline state first, then the backend defaults")
+        else:
+            items = cap.get("state_items")
+            c.require(isinstance(items, dict) and set(items) == set(want) and all(items[k] is v for k, v in want.items()), "the template sees the pipeline state first, then the backend defaults")
+            c.require(st is not d or not p, "the view is not the defaults dict itself (it would be written to)", kind="FRAME")
+
+    def replay(self, values):
+        """the scenario of the property on the real code: a rule for which the pipeline sets a state key, then one for which it does not"""
+        from sigma.backends.test import TextQueryTestBackend
+        from sigma.collection import SigmaCollection
+        from sigma.processing.pipeline import ProcessingPipeline
+
+        def backend():
+            class B(TextQueryTestBackend):
+                state_defaults = {"index": "main"}
+                query_expression = "index={state[index]} {query}"
+            return B(ProcessingPipeline.from_dict({"name": "p", "priority": 10, "transformations": [
+                {"id": "s", "type": "set_state", "key": "index", "val": "windows", "rule_conditions": [{"type": "logsource", "product": "windows"}]}]}))
+        rule = lambda t, prod: {"title": t, "logsource": {"product": prod}, "detection": {"s": {"f": t}, "condition": "s"}}
+        alone = backend().convert(SigmaCollection.from_dicts([rule("b", "linux")]))
+        after = backend().convert(SigmaCollection.from_dicts([rule("a", "windows"), rule("b", "linux")]))[1:]
+        if alone != after:
+            return f"rule b converts to {alone} alone and to {after} after a rule for which the pipeline set state key 'index'"
+        return None
+
+    def frame_ok(self, I, inp, obj, name):
+        return False
